@@ -294,7 +294,14 @@ func sliceBoundLiteralBeforeColon(atom string) bool {
 	if len(atom) > 1 && atom[0] == '-' {
 		return SliceBoundsRegex.MatchString(atom[1:])
 	}
-	return SliceBoundsRegex.MatchString(atom)
+	if SliceBoundsRegex.MatchString(atom) {
+		return true
+	}
+	// the other literals have no colon-tail form either: DecodeAtom would
+	// drop the ':' and a[0x1:3] would lose its slice colon.
+	return HexRegex.MatchString(atom) || OctRegex.MatchString(atom) ||
+		BinaryRegex.MatchString(atom) || Uint64Regex.MatchString(atom) ||
+		FloatRegex.MatchString(atom) || BoolRegex.MatchString(atom)
 }
 
 func StringToRunes(str string) []rune {
